@@ -945,6 +945,18 @@ func splitLast(s *model.Scenario, t *tape.Tape) (*model.Scenario, int) {
 			subs[i].Includes = append(subs[i].Includes, &model.Include{Sub: subs[j].Name})
 		}
 	}
+	if ct := t.Sub("mutual-includes"); k >= 2 && ct.Chance(1, 4) {
+		// the parts include each other (accepted under the option
+		// IgnoreSubmoduleCircularDependencies, which the executions then set):
+		// every node must still arrive exactly once
+		for i := range subs {
+			for j := i + 1; j < k; j++ {
+				if ct.Chance(2, 3) {
+					subs[i].Includes = append(subs[i].Includes, &model.Include{Sub: subs[j].Name})
+				}
+			}
+		}
+	}
 	// non-decreasing level sequence over definition order; level k = stays in the module
 	level := 0
 	next := func() int {
@@ -1218,12 +1230,17 @@ func runSplit(c *c13Case, o *core.Outcome) {
 		o.Nontrivial = true
 		o.Count("probe.items_moved_into_submodules", int64(moved))
 	}
+	var splitOpts world.Options
+	if c.Split != nil && c.Split.HasIncludeCycle() {
+		splitOpts.IgnoreCircDeps = true
+		o.Count("probe.split_with_mutual_includes", 1)
+	}
 	execs := append([]c05Run{{Order: names, Sched: maporder.Canonical()}}, c.Runs...)
 	for i, r := range execs {
 		var b *batchOutcome
 		if i%2 == 1 {
 			// re-Process: the submodule merge is driven by per-run memo tables
-			spec := &world.Spec{Texts: tb, Sched: r.Sched}
+			spec := &world.Spec{Texts: tb, Sched: r.Sched, Options: splitOpts}
 			for _, n := range fixOrder(r.Order, names) {
 				spec.Ops = append(spec.Ops, world.Op{Op: "parse", Name: n})
 			}
@@ -1236,7 +1253,7 @@ func runSplit(c *c13Case, o *core.Outcome) {
 			}
 			o.Count("probe.split_reprocessed", 1)
 		} else {
-			b = runBatch(tb, fixOrder(r.Order, names), r.Sched, world.Options{})
+			b = runBatch(tb, fixOrder(r.Order, names), r.Sched, splitOpts)
 		}
 		o.Ticks += b.Res.Ticks
 		if i > 0 {
